@@ -8,6 +8,7 @@ import Penguin.Basic.Loop
 import Penguin.Model.Frame
 import Penguin.Model.Mux
 import Penguin.Model.MuxExt
+import Penguin.Model.MuxStart
 import Drv.MuxCov
 
 open Penguin Penguin.Mux
@@ -39,7 +40,12 @@ def zTok (bs : Bytes) : String :=
   else
     let tl := bs.drop 5
     if tl.length ≥ zMin && startsRun tl then s!"{toHex (bs.take 5)}z:{tl.length}:{(tl.headD 0).toNat}"
-    else toHex bs
+    else
+      -- (wave 9a) a Datagram frame: the run may start after the header, the host length, the port and the host
+      let p := if bs.length > 8 && (bs.headD 0).toNat % 16 == 6 then 8 + (bs.getD 5 0).toNat else 0
+      let tl := bs.drop p
+      if p > 0 && tl.length ≥ zMin && startsRun tl then s!"{toHex (bs.take p)}z:{tl.length}:{(tl.headD 0).toNat}"
+      else toHex bs
 
 def ofHexZ (s : String) : Option Bytes :=
   match s.splitOn "z:" with
@@ -87,7 +93,7 @@ def showRes : Res → String
   | .brokenPipe => "brokenpipe"
   | .closed => "closed"
   | .stream h host port => s!"stream {h} {hexOrDash host} {port}"
-  | .dgram d => s!"dgram {d.fid} {hexOrDash d.host} {d.port} {hexOrDash d.data}"
+  | .dgram d => s!"dgram {d.fid} {hexOrDash d.host} {d.port} {zTok d.data}"
   | .bindReq k fid bt host port => s!"bindreq {k} {fid} {showBt bt} {hexOrDash host} {port}"
   | .tooLong => "toolong"
   | .unsupported => "unsupported"
@@ -107,6 +113,29 @@ def run1 (st : St) (n : String) (e : EP) (op : Mux.Op) : St × String :=
 
 def run3 (st : St) (n : String) (r : EP × Res × List Ev) : St × String :=
   (putEP st n r.1, showRes r.2.1 ++ " | " ++ "; ".intercalate (r.2.2.map showEv))
+
+/-! ### The stimulus `writemany` (wave 9a)
+
+`writemany E h n k`: up to `n` one-byte writes on handle `h`, made back to back before the connection
+task runs again — the j-th carries the byte `(k + j) mod 251` — stopping at the first call that is not
+accepted; then the task runs to quiescence once. This is `applyBatch` over that list of `write` calls,
+cut at the first answer that is not `wrote`; the frames the calls queue are collected apart (the model's
+queue is a list that is appended to: tens of thousands of appends would be quadratic) and joined to
+the queue before `settle`. Answer: `many <accepted> <done | pending | brokenpipe | badhandle>`. -/
+
+def writeManyLoop (h k : Nat) : Nat → Nat → EP → List Msg → EP × Nat × Option Res × List Msg
+  | 0, j, e, acc => (e, j, none, acc)
+  | fuel + 1, j, e, acc =>
+    let r := appWrite { e with outq := [] } h [UInt8.ofNat ((k + j) % 251)]
+    match r.2 with
+    | .wrote _ => writeManyLoop h k fuel (j + 1) { r.1 with outq := [] } (r.1.outq.reverse ++ acc)
+    | res => ({ r.1 with outq := [] }, j, some res, r.1.outq.reverse ++ acc)
+
+def applyWriteMany (e : EP) (h n k : Nat) : EP × String × List Ev :=
+  let q0 := e.outq
+  let (e, j, last, acc) := writeManyLoop h k n 0 e []
+  let (e, evs) := settle { e with outq := q0 ++ acc.reverse }
+  (e, s!"many {j} " ++ (match last with | none => "done" | some r => showRes r), evs)
 
 def parseIn : List String → Option WsIn
   | ["bin", h] => (ofHexZ h).map fun bs =>
@@ -138,7 +167,7 @@ def parseCall : List String → Option Mux.Op
   | ["shutdown", h] => h.toNat?.map .shutdown
   | ["dropstream", h] => h.toNat?.map .dropStream
   | ["dgsend", fid, host, port, d] =>
-    match fid.toNat?, ofHex host, port.toNat?, ofHex d with
+    match fid.toNat?, ofHex host, port.toNat?, ofHexZ d with
     | some fid, some host, some port, some d => some (.sendDgram { fid := fid, host := host, port := port, data := d })
     | _, _, _, _ => none
   | ["dgrecv"] => some .recvDgram
@@ -159,7 +188,87 @@ def splitCalls : List String → List (List String)
     | [] => [[t]]
     | c :: cs => (t :: c) :: cs
 
+/-! ### wave 9b: a failing sink, and a task that has not been polled yet
+
+`sinkfail E` — the outbound direction of the transport fails and the task is polled (`MuxStart.applySinkFail`).
+`new E … unstarted` creates an endpoint whose task exists but has not run: until `start E` every line
+for `E` is the application call (or the delivery into the transport) ALONE — `opStep`, no run of the
+task, as inside a `batch` — and `sinkfail E` only marks the sink as dead; `start E` is the first poll
+(`MuxStart.applyStart`). The two marks are kept in the endpoint list under the names `E!unstarted` and
+`E!sinkfailed` (never the name of an endpoint). -/
+
+def flagOn (st : St) (n f : String) : Bool := (getEP st (n ++ "!" ++ f)).isSome
+def setFlag (st : St) (n f : String) (e : EP) : St := putEP st (n ++ "!" ++ f) e
+def clearFlag (st : St) (n f : String) : St := st.filter (·.1 ≠ n ++ "!" ++ f)
+
+/-- The calls an application can make (and what the transport can be handed) before the task's first poll. -/
+def parseCallX : List String → Option Mux.Op
+  | ["bindreq", req, t, host, port] =>
+    match req.toNat?, (if t = "1" then some BindType.stream else if t = "3" then some BindType.datagram else none),
+          ofHex host, port.toNat? with
+    | some req, some bt, some host, some port => some (.bindReq req bt host port)
+    | _, _, _, _ => none
+  | ["bindreply", k, a] => k.toNat?.map fun k => .bindReply k (a = "1")
+  | ["binddrop", k] => k.toNat?.map .bindDrop
+  | ["sinkblock"] => some (.sinkRoom (some 0))
+  | ["sinkunblock"] => some (.sinkRoom none)
+  | ["sinkgrant", k] => k.toNat?.map fun k => .sinkRoom (some k)
+  | "deliver" :: w => (parseIn w).map .deliver
+  | c => parseCall c
+
+/-- Several items handed to the transport at once, before the task's first poll. -/
+def parseMany : List String → Option (List WsIn)
+  | "many" :: hs => hs.mapM (fun h => parseIn ["bin", h])
+  | "closemany" :: hs => (hs.mapM (fun h => parseIn ["bin", h])).map fun ws => [.msg .close] ++ ws ++ [.eof]
+  | ["closeerr"] => some [.msg .close, .err]
+  | ["err2"] => some [.err, .err]
+  | _ => none
+
+def stepStart (st : St) : List String → Option (St × String)
+  | ["new", n, rwnd, th, ac, dc, bc, mr, "unstarted"] =>
+    match rwnd.toNat?, th.toNat?, ac.toNat?, dc.toNat?, bc.toNat?, mr.toNat? with
+    | some rwnd, some th, some ac, some dc, some bc, some mr =>
+      let e : EP := { opts := { rwnd := rwnd, threshold := th, acceptCap := ac, dgramCap := dc, bindCap := bc, maxRetries := mr } }
+      some (setFlag (clearFlag (putEP st n e) n "sinkfailed") n "unstarted" e, "ok")
+    | _, _, _, _, _, _ => some (st, "bad-op")
+  | "rng" :: _ => none
+  | cmd :: n :: args =>
+    match getEP st n with
+    | none => none
+    | some e =>
+      if flagOn st n "unstarted" then
+        match cmd, args with
+        | "start", [] =>
+          let failed := flagOn st n "sinkfailed"
+          some (run3 (clearFlag (clearFlag st n "unstarted") n "sinkfailed") n (applyStart e failed))
+        | "sinkfail", [] => some (setFlag st n "sinkfailed" e, "unit | ")
+        | "flowcount", [] => some (st, s!"count {e.flows.length} | ")
+        | "deliver", w :: ws =>
+          match parseMany (w :: ws) with
+          | some items => some (putEP st n (deliverMany e items), "unit | ")
+          | none =>
+            match parseCallX (cmd :: args) with
+            | some op =>
+              let r := opStep e op
+              some (putEP st n r.1, showRes r.2.1 ++ " | " ++ "; ".intercalate (r.2.2.map showEv))
+            | none => some (st, "bad-op")
+        | _, _ =>
+          match parseCallX (cmd :: args) with
+          | some op =>
+            let r := opStep e op
+            some (putEP st n r.1, showRes r.2.1 ++ " | " ++ "; ".intercalate (r.2.2.map showEv))
+          | none => some (st, "bad-op")
+      else
+        match cmd, args with
+        | "sinkfail", [] => some (run3 st n (applySinkFail e))
+        | "start", [] => some (st, "unit | ")
+        | _, _ => none
+  | _ => none
+
 def step (st : St) (line : String) : St × String :=
+  match stepStart st (tokens line) with
+  | some r => r
+  | none =>
   match tokens line with
   | ["reset"] => ([], "ok")
   | ["new", n, rwnd, th, ac, dc, bc, mr] =>
@@ -193,6 +302,14 @@ def step (st : St) (line : String) : St × String :=
         match h.toNat?, ps.mapM ofHexZ with
         | some h, some ps => run1 st n e (.write h ps.flatten)
         | _, _ => (st, "bad-op")
+      | "writemany", [h, cnt, k] =>
+        match h.toNat?, cnt.toNat?, k.toNat? with
+        | some h, some cnt, some k =>
+          let r := applyWriteMany e h cnt k
+          (putEP st n r.1, r.2.1 ++ " | " ++ "; ".intercalate (r.2.2.map showEv))
+        | _, _, _ => (st, "bad-op")
+      -- (the scripted peer has taken what the endpoint sent: nothing happens at the endpoint)
+      | "wiredrop", [] => (st, "unit | ")
       | "read", [h, k] =>
         match h.toNat?, k.toNat? with
         | some h, some k => run1 st n e (.read h k)
@@ -216,7 +333,7 @@ def step (st : St) (line : String) : St × String :=
         | some hs => run3 st n (applyDropMany e hs)
         | none => (st, "bad-op")
       | "dgsend", [fid, host, port, d] =>
-        match fid.toNat?, ofHex host, port.toNat?, ofHex d with
+        match fid.toNat?, ofHex host, port.toNat?, ofHexZ d with
         | some fid, some host, some port, some d =>
           run1 st n e (.sendDgram { fid := fid, host := host, port := port, data := d })
         | _, _, _, _ => (st, "bad-op")
